@@ -13,6 +13,7 @@ import (
 	"github.com/ErdemOzgen/blackdagger/internal/agent"
 	"github.com/ErdemOzgen/blackdagger/internal/dag"
 	"github.com/ErdemOzgen/blackdagger/internal/dag/scheduler"
+	"github.com/ErdemOzgen/blackdagger/internal/persistence/model"
 	"github.com/ErdemOzgen/blackdagger/internal/zzverif/venv"
 	"github.com/ErdemOzgen/blackdagger/internal/zzverif/vexec"
 	"github.com/ErdemOzgen/blackdagger/internal/zzverif/vlib"
@@ -50,6 +51,7 @@ type Config struct {
 	Agent     bool              `json:"agent,omitempty"`    // drive the run through a real agent.Agent (setup + scheduler + the /stop path a.signal)
 	CleanupMs int               `json:"maxCleanUpMs,omitempty"`
 	SigTerm   bool              `json:"sigterm,omitempty"` // with Agent+Stop: deliver an OS signal (a.Signal(SIGTERM)) instead of the /stop request
+	Observe   bool              `json:"observe,omitempty"` // C08(a): call Agent.Status() at every decision and check it against the trace
 	Recorded  []string          `json:"recorded,omitempty"` // retry of a recorded run: recorded status text per step (C10)
 	OutBytes  int               `json:"outBytes,omitempty"` // bytes every attempt prints to stdout (0 = silent)
 	Bound     int               `json:"bound"`
@@ -181,6 +183,10 @@ type Exec struct {
 	StopAt    int // index in Events at which the stop request was accepted (-1 none)
 	Returned  bool
 	highWater int
+	// C08(a): verdicts of live status observations, and the status the agent reports after the run
+	liveVerdicts []verdict
+	finalStatus  *model.Status
+	observations int
 }
 
 func (x *Exec) trace() string {
@@ -291,6 +297,7 @@ func (r *runner) once(cfg *Config, prefix []int, trace func(string)) (*Exec, *re
 	}
 	var g *scheduler.ExecutionGraph
 	var sc *scheduler.Scheduler
+	var observe func()
 	scRef = &sc
 	body := func() {
 		var err error
@@ -308,6 +315,17 @@ func (r *runner) once(cfg *Config, prefix []int, trace func(string)) (*Exec, *re
 				return
 			}
 			g, sc = a.VerifGraph(), a.VerifScheduler()
+			if cfg.Observe {
+				observe = func() {
+					vrt.Oracle(func() {
+						x.observations++
+						if len(x.liveVerdicts) < 4 {
+							x.liveVerdicts = append(x.liveVerdicts, liveCheck(x, a.Status())...)
+						}
+					})
+				}
+				defer func() { observe = nil }()
+			}
 			done := make(chan *scheduler.Node, 8192)
 			if cfg.DoneSync {
 				done = make(chan *scheduler.Node)
@@ -341,6 +359,9 @@ func (r *runner) once(cfg *Config, prefix []int, trace func(string)) (*Exec, *re
 			}
 			x.Status = sc.Status(g).String()
 			x.Events = append(x.Events, Ev{Event: vexec.Event{Kind: "returned", T: vrt.Clock().Milliseconds()}, Thread: vrt.CurID()})
+			if cfg.Observe {
+				vrt.Oracle(func() { x.finalStatus = a.Status() })
+			}
 			vrt.Close(done)
 			return
 		}
@@ -402,6 +423,9 @@ func (r *runner) once(cfg *Config, prefix []int, trace func(string)) (*Exec, *re
 	rt.Trace = trace
 	if r.states != nil {
 		rt.OnDecision = func(rr *vrt.Runtime) {
+			if observe != nil {
+				observe()
+			}
 			h := rr.StateHash()
 			h = (h ^ uint64(len(x.Events))) * 1099511628211
 			if n := len(x.Events); n > 0 {
